@@ -103,6 +103,7 @@ class Setup:
         pairs = list(itertools.permutations(range(nd), 2))
         self.a, self.b = pairs[(i // 5) % len(pairs)]
         self.k = int(rng.integers(-9, 10))
+        self.k_as_numpy = bool(rng.random() < 0.2)
         # subregions
         self.boxes = {}
         if rng.random() < 0.5:
@@ -193,9 +194,11 @@ class Setup:
             vdims=self.vdims, vdim_mapping=self.mapping, unit=self.unit, **kw))
 
     def rotate(self, obj, k=None, inplace=False):
-        return obj.rotate90(self.names[self.a], self.names[self.b],
-                            k=self.k if k is None else k, reference_point=self.ref_arg,
-                            inplace=inplace)
+        k = self.k if k is None else k
+        if self.k_as_numpy:
+            k = np.int64(k)  # e.g. an entry of mesh.n: an integer is an integer
+        return obj.rotate90(self.names[self.a], self.names[self.b], k=k,
+                            reference_point=self.ref_arg, inplace=inplace)
 
     def info(self, **kw):
         d = {"ndim": self.nd, "n": self.n, "dims": self.names, "units": self.spec.units,
